@@ -10,6 +10,7 @@ package checks
 // recomputed from the rows.
 
 import (
+	"os"
 	"fmt"
 	"sort"
 	"strings"
@@ -281,6 +282,9 @@ func c04Step(m *dyn.Model, e *txn.Engine, pre *ref.DB, ops []ref.Op, r *ev.Run) 
 			}
 			if r != nil {
 				r.SetAdd("other_commit_rejections", cls+": "+errClassOf(rep.FailWhy))
+			}
+			if os.Getenv("VERIF_C04_DEBUG") != "" {
+				return []finding{{"C04/debug/commit-rejection/" + cls, rep.FailWhy}}
 			}
 		}
 		if r != nil && refRejectsForIntegrity {
